@@ -6,4 +6,4 @@ require github.com/snower/slock v0.0.0
 
 require google.golang.org/protobuf v1.34.2 // indirect
 
-replace github.com/snower/slock => /tmp/c19ext-wt
+replace github.com/snower/slock => /repo
